@@ -44,7 +44,7 @@ def addrEngine : Engine := fun inp obs =>
         let spec := specNumbers r D nrefs
         let bad := (List.range spec.length).filter fun i => nums.getD i 0 != spec.getD i 0
         if let some i := bad.head? then
-          .viol "C13" s!"{fieldNames.getD i "?"} = {nums.getD i 0}, but the stored objects give {spec.getD i 0} (replace refs / grafts must not change what is measured)"
+          .viol "C13,C01,C03" s!"{fieldNames.getD i "?"} = {nums.getD i 0}, but the stored objects give {spec.getD i 0} (replace refs / grafts must not change what is measured)"
         else if style == "full" && (witS.splitOn ",").any (fun w => (w.splitOn ":").getD 1 "" == "0") then
           -- F18: a description with non-UTF-8 bytes is lossy in JSON (U+FFFD)
           (if (witS.splitOn ",").all (fun w => (w.splitOn ":").getD 1 "" != "0" || ((w.splitOn ":").getD 2 "").toLower.replace "efbfbd" "" != ((w.splitOn ":").getD 2 "").toLower)
